@@ -31,11 +31,16 @@ class SplineGroove(GrooveBase):
         if contour_points.shape[1] != 2:
             raise ValueError("contour_points must have length of 2 in second dimension")
 
-        if not np.isclose(contour_points[0, 1], 0) or not np.isclose(contour_points[-1, 1], 0):
+        # a vertex lies on the face line y = 0 if its ordinate vanishes relative to the extent of the contour
+        # (a tolerance in absolute numbers would depend on the unit of length the contour is given in)
+        face_tolerance = 1e-9 * np.max(np.ptp(contour_points, axis=0))
+        on_face = np.abs(contour_points[:, 1]) <= face_tolerance
+
+        if not on_face[0] or not on_face[-1]:
             raise ValueError("first and last element of contour_points should have y coordinate equal to 0")
 
         # strip boundary (the horizontal face runs at both ends only, vertices in between are never dropped)
-        inner = np.flatnonzero(np.logical_not(np.isclose(contour_points[:, 1], 0)))
+        inner = np.flatnonzero(np.logical_not(on_face))
         if inner.size:
             contour_points = contour_points[inner[0] - 1 : inner[-1] + 2]
         contour_points = contour_points.copy()
